@@ -129,7 +129,7 @@ def run(tier, rep, replay=None):
 
 
 MANIFEST = {
- "text": "Trace_Ladder.tla judges the ladder building blocks of dh/x25519 and dh/x448 (mulA24, double, ladderStep, diffAdd) recorded in-package under four back-end configurations on structured raw operands, incl. the operands for which a24 * x needs its second carry fold: TLC reduces modulo p itself and requires the RFC 7748 step formulas. MontJobs.tla is RFC 7748 section 5 as an executable TLA+ job machine (scalar clamping, u decoding with the ignored bit and reduction mod p, one action per ladder step on base-4096 digit arithmetic, final projective comparison instead of the inversion): TLC recomputes, without any hint, the X25519 / X448 value for a class-covering sample of the (scalar, peer, output) triples the library produced in the same run, after reproducing the RFC vectors and rejecting a falsified one. The driver calls x25519/x448 KeyGen and Shared on every combination of peer classes (0, 1, p-1, p, p+1, 2p+-d, 2^255+-d, the order-8 points and their non-canonical and top-bit aliases, p+0..20 with and without bit 255, all-ones, low limbs all ones, single limbs, limb boundaries, structured, random) and scalar classes (0, 1, all-ones, clamping-sensitive first and last bytes, random); TLC judges each line: value = RFC value, flag false exactly when the value is all zero, aliases of the same field element (checked mod p by TLC) give the same output, two parties agree, KeyGen = function of the base point, and for the 10 KEM wrappers (HPKE X25519 / X448 / X25519Kyber768 / X-Wing, four Kyber-X hybrids, X25519MLKEM768, X-Wing) a low-order peer value in the public key or ciphertext yields an error (X-Wing exempt) while honest runs succeed.",
+ "text": "Trace_Ladder.tla judges the ladder building blocks of dh/x25519 and dh/x448 (mulA24, double, ladderStep, diffAdd) recorded in-package under four back-end configurations on structured raw operands, incl. the operands for which a24 * x needs its second carry fold: TLC reduces modulo p itself and requires the RFC 7748 step formulas. MontJobs.tla is RFC 7748 section 5 as an executable TLA+ job machine (scalar clamping, u decoding with the ignored bit and reduction mod p, one action per ladder step on base-4096 digit arithmetic, final projective comparison instead of the inversion): TLC recomputes, without any hint, the X25519 / X448 value for a class-covering sample of the (scalar, peer, output) triples the library produced in the same run, after reproducing the RFC vectors and rejecting a falsified one. The driver calls x25519/x448 KeyGen and Shared on every combination of peer classes (0, 1, p-1, p, p+1, 2p+-d, 2^255+-d, the order-8 points and their non-canonical and top-bit aliases, p+0..20 with and without bit 255, all-ones, low limbs all ones, single limbs, limb boundaries, structured, random) and scalar classes (0, 1, all-ones, clamping-sensitive first and last bytes, random); TLC judges each line: value = RFC value, flag false exactly when the value is all zero, aliases of the same field element (checked mod p by TLC) give the same output, two parties agree, KeyGen = function of the base point, and for the 10 KEM wrappers (HPKE X25519 / X448 / X25519Kyber768 / X-Wing, four Kyber-X hybrids, X25519MLKEM768, X-Wing) a low-order peer value in the public key or ciphertext yields an error (X-Wing exempt) while honest runs succeed. Scalars include the clamped secret 4q of X448 (all-zero output for every peer), and the KEM lines the authenticated HPKE operations with a low-order recipient, sender identity or encapsulated key.",
  "note": "TLC recomputation is limited to 8 triples in quick (6 X25519 at about 35 s, 2 X448 at about 4 min, parallel JVMs) and 52 in thorough; all other lines rely on the math/big reference.",
  "technique": "executable TLA+ RFC 7748 (TLC recomputation of sampled outputs, no hints) + TLC judgement of recorded calls (flag rule, alias / agreement relations with BigNat congruences, KEM error rule) + differential against a math/big transcription",
 }
